@@ -757,6 +757,27 @@ func genC03(r *rand.Rand, n int, exhaustive bool, out func(J), next func() int) 
 			}
 		}
 	}
+	// (3h') query, INSERT, the same query again (also with the clauses reversed) on one store: lookups after adds after lookups
+	for i := 0; i < n/16; i++ {
+		ts := cycleData(r)
+		h := len(ts) / 2
+		q := cycleQuery(r, 1)
+		if i%2 == 1 {
+			q = query{clauses: []string{`?x "p"@[] ?y`, `?x ?p ?y`}, optional: []bool{false, false}, from: 1}
+		}
+		q2 := q
+		if i%3 == 2 {
+			q2.clauses = append([]string{}, q.clauses...)
+			for a, b := 0, len(q2.clauses)-1; a < b; a, b = a+1, b-1 {
+				q2.clauses[a], q2.clauses[b] = q2.clauses[b], q2.clauses[a]
+			}
+		}
+		pre := []string{q.text(), insertStmt("?g0", ts[h:])}
+		if i%4 == 3 {
+			pre = append(pre, q2.text(), insertStmt("?g0", ts[:2])) // re-insert triples that are present
+		}
+		out(tag(run(Spec{Graphs: [][]string{ts[:h]}, Query: q2.text(), Pre: pre}, false), "sequence-insert", next()))
+	}
 	// (3i) the last clause binds nothing new and matches more than once (the triple in two FROM graphs, an interval matching
 	// two anchors), projected through aliases that carry the names of pattern bindings
 	for i := 0; i < n/16; i++ {
@@ -1016,6 +1037,15 @@ func orderData(r *rand.Rand) []string {
 	return ts
 }
 
+// insertStmt writes triples (tab separated texts) as an INSERT statement into graph g
+func insertStmt(g string, ts []string) string {
+	var parts []string
+	for _, t := range ts {
+		parts = append(parts, strings.ReplaceAll(t, "\t", " "))
+	}
+	return "INSERT DATA INTO " + g + " { " + strings.Join(parts, " . ") + " };"
+}
+
 // clauses that use a binding twice AND carry an anchor / TYPE / ID / AT binding, joined with a second clause
 func repeatData() []string {
 	return []string{
@@ -1079,6 +1109,21 @@ func genC14(r *rand.Rand, n int, out func(J), next func() int) {
 			}
 			q = query{clauses: []string{`?a "p"@[] ?b`, `?b "p"@[] ?c`}, optional: []bool{false, false}}
 			ncl = 2
+		case gi%8 == 4:
+			// OPTIONAL clauses that share a binding with the rows built so far and match for some rows only
+			ts = cycleData(r)
+			oq := [][]string{
+				{`?a "p"@[] ?b`, `OPT ?b "q"@[] ?c`},
+				{`?a ?p ?b`, `OPT ?b "q"@[?t] ?c`, `OPT ?c "p"@[] ?d`},
+				{`?a "q"@[] ?b`, `OPT ?a "p"@[] ?c`},
+				{`?a "p"@[] ?b`, `?b "p"@[] ?c`, `OPT ?c "q"@[] ?a`},
+			}[(gi/8)%4]
+			q = query{}
+			for _, c := range oq {
+				q.clauses = append(q.clauses, strings.TrimPrefix(c, "OPT "))
+				q.optional = append(q.optional, strings.HasPrefix(c, "OPT "))
+			}
+			ncl = len(q.clauses)
 		case gi%8 == 6:
 			ts = repeatData()
 			r.Shuffle(len(ts), func(a, b int) { ts[a], ts[b] = ts[b], ts[a] })
@@ -1161,6 +1206,12 @@ func genC14(r *rand.Rand, n int, out func(J), next func() int) {
 				}
 			}
 			emitv("superset", Spec{Graphs: [][]string{sup}, Query: q.text()}, true)
+			// the same final data reached by: query, INSERT of the extra triples, query again (must equal the superset run);
+			// and the same with the clauses in reverse order
+			if extra := sup[len(ts):]; len(extra) > 0 {
+				emitv("seqadd", Spec{Graphs: base, Pre: []string{q.text(), insertStmt("?g0", extra)}, Query: q.text()}, true)
+				emitv("seqadd:again", Spec{Graphs: base, Pre: []string{q.text(), insertStmt("?g0", extra), q.text(), insertStmt("?g0", ts[:1])}, Query: q.text()}, true)
+			}
 		}
 		// clause permutations (the projection is kept: explicit list so that it does not depend on clause order)
 		if ncl > 1 && ncl <= 4 && !hasOpt {
